@@ -154,6 +154,8 @@ def loadcases(out, tier):
     meshes = {
         "rect": (lambda: fem.Rectangle(a=(0, 0), b=(2, 1), n=(3, 2)), lambda r: fem.RegionQuad(r), 2),
         "rect-shift": (lambda: fem.Rectangle(a=(-1, -1), b=(1, 1), n=(3, 3)), lambda r: fem.RegionQuad(r), 2),
+        "rect-offset": (lambda: fem.Rectangle(a=(0, 1), b=(2, 3), n=(3, 3)), lambda r: fem.RegionQuad(r), 2),
+        "cube-offset": (lambda: fem.Cube(a=(0, 2, -1), b=(1, 4, 1), n=(2, 3, 3)), lambda r: fem.RegionHexahedron(r), 3),
         "cube": (lambda: fem.Cube(a=(0, 0, 0), b=(1, 2, 1), n=(2, 3, 2)), lambda r: fem.RegionHexahedron(r), 3),
         "cube-shift": (lambda: fem.Cube(a=(-1, -1, -1), b=(1, 1, 1), n=(3, 2, 3)), lambda r: fem.RegionHexahedron(r), 3),
     }
@@ -235,14 +237,12 @@ def main():
         which = ["line", "quad", "mixed", "three"][c % 4]
         rid = "partition-%s-%d-%04d" % (which, a.seed, c)
         r2 = np.random.RandomState(rng.randint(0, 2 ** 31 - 1))
-        if out.want(rid):
-            out.write(partition_case(rid, r2, which, extra=int(r2.randint(0, 3)), nb=int(r2.randint(0, 4))))
+        out.attempt(rid, lambda: partition_case(rid, r2, which, extra=int(r2.randint(0, 3)), nb=int(r2.randint(0, 4))))
     for c in range(40 if quick else 400):
         which = ["line", "quad", "mixed", "three"][c % 4]
         rid = "numbering-%s-%d-%04d" % (which, a.seed, c)
         r2 = np.random.RandomState(rng.randint(0, 2 ** 31 - 1))
-        if out.want(rid):
-            out.write(numbering_case(rid, r2, which, extra=int(r2.randint(0, 3))))
+        out.attempt(rid, lambda: numbering_case(rid, r2, which, extra=int(r2.randint(0, 3))))
     loadcases(out, a.tier)
     out.close()
 
